@@ -356,7 +356,7 @@ func (t *SymbolTable) AddStringTokenDef(token grammar.Terminal, value string, po
 
 	e.definitions = append(e.definitions, &TerminalDef{
 		Terminal: token,
-		Value:    value,
+		Value:    unescapeString(value),
 		IsRegex:  false,
 		Pos:      pos,
 	})
@@ -389,6 +389,21 @@ func (t *SymbolTable) AddRegexTokenDef(token grammar.Terminal, regex string, pos
 	})
 }
 
+// unescapeString resolves the backslash escapes of a string literal:
+// a backslash stands for the character that follows it.
+func unescapeString(s string) string {
+	var b strings.Builder
+
+	for i := 0; i < len(s); i++ {
+		if s[i] == '\\' && i+1 < len(s) {
+			i++
+		}
+		b.WriteByte(s[i])
+	}
+
+	return b.String()
+}
+
 // AddStringTerminal adds a terminal symbol, defined by its string value, to the symbol table.
 // If the terminal symbol already exists, the position is added to its occurrences.
 func (t *SymbolTable) AddStringTerminal(a grammar.Terminal, pos *lexer.Position) {
@@ -403,7 +418,7 @@ func (t *SymbolTable) AddStringTerminal(a grammar.Terminal, pos *lexer.Position)
 	t.terminals.counter++
 	def := &TerminalDef{
 		Terminal: a,
-		Value:    string(a),
+		Value:    unescapeString(string(a)),
 		IsRegex:  false,
 	}
 
